@@ -1,4 +1,6 @@
 import MW.Staking.Facts
+import MW.Inv.WorldStake
+import MW.Inv.Demo
 /-!
 # C11 — Protocol fee accounting on rewards
 -/
@@ -93,9 +95,58 @@ theorem fee_withdraw (s s' : CState) (env : Env) (info : Info) (x : Nat) (out : 
   cases h
   exact ⟨assertAdmin_ok.mp ha, by simpa using hx, t, ht, rfl, rfl⟩
 
+open MW.Chain in
+/-- **the split, on the chain model's ledgers.**  A committed reward delivery through ibc-hooks (any
+channel, native sender, coin, fault assignment; the hook account is not the contract): the coin is in
+the staked-asset denom, `fee = floor(rate × reward / 100000) ≤ reward`, a pending packet carries
+exactly `reward − fee` from the contract toward the staker, and the fee is paid to the treasury in the
+same transaction when one is configured (the contract's own balance is then unchanged) and otherwise
+stays in the contract — fee plus restaked amount is the reward exactly. -/
+theorem C11_split_world (w : World) (channel ns : String) (coin : Coin) (f : Faults)
+    (hc : (step w (.hook channel ns coin .receiveRewards f)).committed = true)
+    (hself : ∀ acct, deriveIntermediateSender channel ns w.chainPrefix = some acct → acct ≠ w.self) :
+    ∃ acct, deriveIntermediateSender channel ns w.chainPrefix = some acct
+      ∧ coin.denom = w.c.config.proto.ibcDenom
+      ∧ w.c.config.feeCfg.fee * coin.amount / 100000 ≤ coin.amount
+      ∧ ChainPkt.mk w.nextSeq w.c.config.proto.channel w.self w.c.config.native.staker
+          ⟨w.c.config.proto.ibcDenom, coin.amount - w.c.config.feeCfg.fee * coin.amount / 100000⟩ .pending
+          ∈ (step w (.hook channel ns coin .receiveRewards f)).w.pkts
+      ∧ (∀ t, w.c.config.feeCfg.treasury = some t → t ≠ w.self → t ≠ acct →
+            (step w (.hook channel ns coin .receiveRewards f)).w.bal t w.c.config.proto.ibcDenom
+              = w.bal t w.c.config.proto.ibcDenom + w.c.config.feeCfg.fee * coin.amount / 100000
+            ∧ (step w (.hook channel ns coin .receiveRewards f)).w.bal w.self w.c.config.proto.ibcDenom
+              = w.bal w.self w.c.config.proto.ibcDenom)
+      ∧ (w.c.config.feeCfg.treasury = none →
+            (step w (.hook channel ns coin .receiveRewards f)).w.bal w.self w.c.config.proto.ibcDenom
+              = w.bal w.self w.c.config.proto.ibcDenom + w.c.config.feeCfg.fee * coin.amount / 100000) := by
+  obtain ⟨acct, hacct, _, hcm, hw⟩ := hook_committed hc
+  have hs := hself acct hacct
+  obtain ⟨h1, h2, _, h4, h5, h6⟩ := rewards_tx_split (w := { w with bal := w.bal.add acct coin.denom coin.amount }) hs hcm
+  simp only at h1 h2 h4 h5 h6
+  have hts : ∀ t, t ≠ acct → (w.bal.add acct coin.denom coin.amount) t w.c.config.proto.ibcDenom = w.bal t w.c.config.proto.ibcDenom := by
+    intro t ht; simp [Bal.add_apply, ht]
+  refine ⟨acct, hacct, h1, h2, by rw [hw]; exact h4, ?_, ?_⟩
+  · intro t htre h1' h2'
+    obtain ⟨g1, g2, _⟩ := h5 t htre h1' h2'
+    rw [hw]
+    exact ⟨by rw [g1, hts t h2'], by rw [g2, hts w.self (fun e => hs e.symm)]⟩
+  · intro htre
+    rw [hw, (h6 htre).1, hts w.self (fun e => hs e.symm)]
+
 /-- non-vacuity: a 10 % fee on 1001 is 100, the remainder 901 -/
 example : checkedMulRatio 10000 1001 100000 = some 100 ∧ checkedSub 1001 100 = some 901 := ⟨rfl, rfl⟩
 /-- a rate of 2^128-1 does not panic: the fee does not fit 128 bits and the reward is refused -/
 example : checkedMulRatio (2 ^ 128 - 1) (10 ^ 27) 100000 = none := by decide
+
+-- non-vacuity of `C11_split_world`: the last event of the demo history is a committed reward of 1000 at a
+-- 10 % fee with no treasury: the contract's balance grows by 100 and a packet with 900 leaves for the staker
+section Demo
+open MW.Chain MW.Chain.Demo
+#guard (demoBoot.map fun w =>
+    let r0 := runW w {} (demoEvents.take (demoEvents.length - 1))
+    let r1 := runW w {} demoEvents
+    ((r1.1.bal demoSelf demoD : Int) - r0.1.bal demoSelf demoD,
+     (r1.1.pkts.getLast?.map fun p => (p.receiver == demoStaker, p.coin.amount, p.state == .pending)))) == some (100, some (true, 900, true))
+end Demo
 
 end MW.Props.C11
